@@ -20,4 +20,4 @@ Extraction "model.ml"
   char_of_piece PGN_LETTER glyph all_kinds
   driver root node fresh_state mkS tempty tlen tfind quiescence depth1 history_bonus KILLER_SLOTS HISTORY_SLOTS
   chess_rootref chess_nref root_moves standpat QFUEL
-  go_timer go_time side_budget share Z.add Z.mul Z.div Z.modulo.
+  go_timer go_time side_budget share Z.add Z.mul Z.div Z.modulo Z.compare.
